@@ -1304,9 +1304,21 @@ pub fn write_report(
     log: &dyn Log,
     groups: &[FileGroup<FileInfo>],
 ) -> io::Result<()> {
+    write_report_with_timestamp(config, log, groups, Local::now())
+}
+
+/// Like [`write_report`], but records the given time in the report header.
+///
+/// The dedupe commands skip every group containing a file modified after the report timestamp,
+/// so the timestamp must not be later than the moment grouping started reading the files.
+pub fn write_report_with_timestamp(
+    config: &GroupConfig,
+    log: &dyn Log,
+    groups: &[FileGroup<FileInfo>],
+    now: DateTime<Local>,
+) -> io::Result<()> {
     #[cfg(fclones_verif)]
     crate::verif::sync_point("report.timestamp", "");
-    let now = Local::now();
 
     let total_count = file_count(groups.iter());
     let total_size = total_size(groups.iter());
